@@ -109,6 +109,8 @@ fn main() {
                         "mutate" => suite_parse::run_mutations(&mut out, &cfg, seed, n),
                         "random" => suite_parse::run_random_strings(&mut out, &cfg, seed, n),
                         "strings" => suite_parse::run_exhaustive_strings(&mut out, &cfg, n, shard, nshards),
+                        "goalstrings" => suite_parse::run_exhaustive_goal_strings(&mut out, &cfg, n, shard, nshards),
+                        "spellings" => suite_parse::run_spellings(&mut out, &cfg, seed, n),
                         "contexts" => suite_parse::run_contexts(&mut out, &cfg, seed, n),
                         "reader" => suite_parse::run_reader(&mut out, &cfg, seed, n),
                         _ => { eprintln!("unknown kind"); std::process::exit(2); },
